@@ -344,7 +344,7 @@ impl Check for GroupCheck {
             out.bump("direct_path_runs");
             match r {
                 Err(p) => {
-                    if p.loc.contains("/verif/sim/") {
+                    if p.is_harness() {
                         panic!("harness panic: {} at {}", p.msg, p.loc);
                     }
                     out.violations.push(panic_violation("C10", "direct_path_no_panic", &p, 0));
